@@ -38,7 +38,8 @@ def run_engine(ctx, want: str) -> None:
         # three-node programs over a reduced catalogue: TLC enumerates all of them, a checksum-selected
         # (seed-dependent, scheduling-independent) sample is emitted and run
         src3 = open(os.path.join(RW, "RewriteMC_n3.cfg")).read()
-        src3 = re.sub(r"SampleRes = \d+", f"SampleRes = {ctx.seed % 400}", src3)
+        mod3 = int(re.search(r"SampleMod = (\d+)", src3).group(1))
+        src3 = re.sub(r"SampleRes = \d+", f"SampleRes = {ctx.seed % mod3}", src3)
         cfg3 = os.path.join(ctx.scratch, "RewriteMC_n3_v.cfg")
         open(cfg3, "w").write(src3)
         res3 = ctx.tlc(os.path.join(RW, "RewriteMC.tla"), cfg3, tag="gen3", timeout=3000, deadlock=False)
@@ -112,7 +113,8 @@ def run_engine(ctx, want: str) -> None:
                 gaps += 1       # denotations differ syntactically but no concrete difference: spec gap, not a verdict
                 continue
             kind = sorted(w)[0]
-            ctx.violation(f"C05:{pname(key)}:{kind}",
+            cause = _attr_cause(by_id[key]["before"], by_id[key]["after"])
+            ctx.violation(f"C05:{pname(key)}:{kind}" + (f":{cause}" if cause else ""),
                           dict(program=_prog_of(programs, pid), program_id=pid, passes=pname(key), witness=w,
                                before=by_id[key]["before"], after=by_id[key]["after"],
                                message=f"{pname(key)} changed what the model computes ({w})"))
@@ -167,6 +169,38 @@ def run_engine(ctx, want: str) -> None:
         ctx.assumptions = ["convergence is required of single passes (the statement says 'every built-in pass'), sequences are exempt",
                            "modified=False is compared against deterministic proto bytes"]
     ctx.exhaustive = False
+
+
+def _attr_cause(before: dict, after: dict) -> str:
+    """Structural classification of a reported difference (signature detail only, the verdict is TLC's + the witness):
+    operators whose attribute lists differ between the two abstractions, e.g. 'BatchNormalization.training_mode-dropped'."""
+    def attrs(P):
+        d = {}
+        for g in P["g"]:
+            for n in g["nodes"]:
+                if not n["fn"] and n["op"] not in ("Constant", "If"):
+                    d.setdefault(n["op"], []).append(tuple(sorted((a[0], str(a[1])) for a in n["attr"])))
+        return d
+    b, a = attrs(before), attrs(after)
+    out = set()
+    for op in sorted(set(b) & set(a)):
+        import collections
+        cb, ca = collections.Counter(b[op]), collections.Counter(a[op])
+        if cb == ca:
+            continue
+        lost, gained = cb - ca, ca - cb
+        nb = {k for t in lost for k, _ in t}
+        na = {k for t in gained for k, _ in t}
+        vb = {kv for t in lost for kv in t}
+        va = {kv for t in gained for kv in t}
+        for k in sorted(nb - na):
+            out.add(f"{op}.{k}-dropped")
+        for k in sorted(na - nb):
+            out.add(f"{op}.{k}-added")
+        for k in sorted(nb & na):
+            if {v for kk, v in vb if kk == k} != {v for kk, v in va if kk == k}:
+                out.add(f"{op}.{k}-changed")
+    return "+".join(sorted(out))
 
 
 def _prog_of(programs, pid):
